@@ -611,8 +611,9 @@ def run_check(check, tier="quick", seed=0, replay_only=None):
             "assumptions": sorted(assumptions),
             "wall_s": round(time.time() - t0, 2), "violations": violations,
         }
-        os.makedirs(os.path.join(VERIF, "evidence"), exist_ok=True)
-        json.dump(ev, open(os.path.join(VERIF, "evidence", pid + ".json"), "w"), indent=1)
+        evdir = os.environ.get("VERIF_EVIDENCE_DIR") or os.path.join(VERIF, "evidence")  # bin/seedtest points this elsewhere
+        os.makedirs(evdir, exist_ok=True)
+        json.dump(ev, open(os.path.join(evdir, pid + ".json"), "w"), indent=1)
         for l in lines:
             print(l)
         for i in infra:
